@@ -5,6 +5,7 @@ import (
 	"go/ast"
 	"go/token"
 	"go/types"
+	"sort"
 	"strings"
 
 	"github.com/jmattheis/goverter/config"
@@ -47,6 +48,8 @@ func ParseDocs(c ParseDocsConfig) ([]config.RawConverter, error) {
 	if err != nil {
 		return nil, err
 	}
+	// visit the packages in a fixed order so that the reported error does not depend on the order of the patterns
+	sort.SliceStable(pkgs, func(i, j int) bool { return pkgs[i].PkgPath < pkgs[j].PkgPath })
 	rawConverters := []config.RawConverter{}
 	for _, pkg := range pkgs {
 		if len(pkg.Errors) > 0 {
